@@ -38,6 +38,10 @@ def scenarios(rep, tier, seed):
             scn["Z"] = Z.tolist()
         if not S.materialise_pre(scn):
             continue
+        if scn["mode"] == "metric" and i % 2:
+            # identifiers drawn from a larger pool: they overlap the positions nl.. the unlabeled nodes are numbered with
+            scn["pass_I"] = True
+            scn["id_offset"] = 1 + i % 5
         scns.append(scn)
     return scns
 
@@ -69,7 +73,7 @@ def run(tier, seed):
         s0, t0 = next(((s, t) for s, t in items if s["U"] and s["mode"] == "metric"), items[0])
         rep.sample({"scenario": {k: (v if k not in ("Z", "D") else "...") for k, v in s0.items()}, "W": t0["W"], "L": t0["L"], "fin": t0["fin"]})
         S.judge(rep, items, "c15", PIDS)
-    rep.cov["rule"] = "all weight matrices / labelings of the design model with unlabeled nodes, each run through SemiSupervisedOPF.fit; float data with 0..5 unlabeled samples incl. far outliers and bridging points; empty-unlabeled runs compared with SupervisedOPF.fit in one rank universe"
+    rep.cov["rule"] = "all weight matrices / labelings of the design model with unlabeled nodes, each run through SemiSupervisedOPF.fit; float data with 0..5 unlabeled samples incl. far outliers and bridging points, index arrays whose identifiers overlap the unlabeled positions; empty-unlabeled runs compared with SupervisedOPF.fit in one rank universe"
     rep.assumptions = ["TLC", "order-embedding of floats is exact", "with pre-computed distances the unlabeled rows sit at positions n_labeled.. of the matrix (the API has no index array for them)"]
     return rep.finish()
 
